@@ -16,8 +16,9 @@ func init() { register("C03", "exploration", c03) }
 // diffOptNoOpt prepares the script twice (optimised / NoOptimize) and runs the
 // same object sequence through both; any observable difference is a violation.
 func diffOptNoOpt(c *ev.Ctx, id, class, script string, vars map[string]model.Value, objs []map[string]model.Value) (judged int) {
-	a, errA := eng.New(script, eng.Options{Vars: vars})
-	b, errB := eng.New(script, eng.Options{Vars: vars, NoOptimize: true})
+	const budget = 400000
+	a, errA := eng.New(script, eng.Options{Vars: vars, Budget: budget})
+	b, errB := eng.New(script, eng.Options{Vars: vars, NoOptimize: true, Budget: budget})
 	if (errA != nil) != (errB != nil) {
 		c.Violation(id, class+"/prepare", map[string]interface{}{
 			"summary": fmt.Sprintf("Prepare outcome depends on the optimizer: optimised err=%v, NoOptimize err=%v\n  script: %s", errA, errB, script), "script": script})
@@ -31,6 +32,21 @@ func diffOptNoOpt(c *ev.Ctx, id, class, script string, vars map[string]model.Val
 	vb := engineRunsOn(b, objs)
 	for i := range objs {
 		if va[i].Skip != "" || vb[i].Skip != "" {
+			// one of the two did not finish within the instruction budget. If the other one
+			// finished long before it, the two programs do different things (the optimizer
+			// only removes instructions: the counts stay within a small factor of each other)
+			if (va[i].Skip == "") != (vb[i].Skip == "") {
+				done := va[i]
+				if va[i].Skip != "" {
+					done = vb[i]
+				}
+				if done.Steps < budget/8 {
+					c.Violation(id, class, map[string]interface{}{
+						"summary": fmt.Sprintf("run %d of %d: one of the two programs ends after %d instructions (%s), the other is still running after %d (optimised still running: %v)\n  script: %s", i+1, len(objs), done.Steps, done, budget, va[i].Skip != "", script),
+						"script":  script, "run_index": i})
+					break
+				}
+			}
 			c.Count("skipped/budget", 1)
 			break
 		}
